@@ -36,6 +36,9 @@ TRUSTED = [
     'fluent_langneg negotiation; in the theorems it is a section variable. The model-side table Bundle/Plural.v that instantiates it in the '
     'extraction transcribes the CRATE, not CLDR; the oracle of this plugin is written from CLDR and found the crate deviating (finding D29)',
     'FluentArgs holds one entry per key, sorted (theorem C11_sorted); with_try_get(...).unwrap() on the memoizer never fails',
+    'outside the model (not generated for the correspondence, the oracle alone covers the real code there): binary-float ARGUMENTS with '
+    '2^53 <= |x| < 2^64 whose shortest round-trip digits are not their exact integer value (68309228277707248.0 displays 68309228277707250): '
+    'operand i of the real code is the exact integer (`value as u64`), the exact-decimal model reads the displayed digits',
 ]
 ASSUMPTIONS = [
     'exact_guard: the literal has at most 15 significant digits (beyond it the real code rounds: known finding D15)',
